@@ -76,24 +76,48 @@ def arr(w: Waveform) -> np.ndarray:
 
 
 # ------------------------------------------------------------------ building
+def pydur(x):
+    """duration argument as the user passes it: int, float, or a numpy scalar
+    (["i64", n] / ["f64", x]); every form is int-castable"""
+    if isinstance(x, (list, tuple)):
+        if x[0] == "i64":
+            return np.int64(x[1])
+        if x[0] == "f64":
+            return np.float64(x[1])
+        raise ValueError("unknown duration form " + str(x))
+    return x
+
+
+def dur_int(x) -> int:
+    """what _cast_check(int, duration) must yield"""
+    return int(pydur(x))
+
+
+def idur(x):
+    """a duration as the object stores it: must be an integer type"""
+    if isinstance(x, (int, np.integer)) and not isinstance(x, bool):
+        return int(x)
+    return float(x)
+
+
 def build(W):
     k = W[0]
     if k == "const":
-        return ConstantWaveform(W[1], W[2])
+        return ConstantWaveform(pydur(W[1]), W[2])
     if k == "ramp":
-        return RampWaveform(W[1], W[2], W[3])
+        return RampWaveform(pydur(W[1]), W[2], W[3])
     if k == "custom":
         return CustomWaveform(list(W[1]))
     if k == "comp":
         return CompositeWaveform(*[build(x) for x in W[1]])
     if k == "blackman":
-        return BlackmanWaveform(W[1], W[2])
+        return BlackmanWaveform(pydur(W[1]), W[2])
     if k == "kaiser":
-        return KaiserWaveform(W[1], W[2], W[3])
+        return KaiserWaveform(pydur(W[1]), W[2], W[3])
     if k == "interp":
         if W[3] is None:
-            return InterpolatedWaveform(W[1], list(W[2]))
-        return InterpolatedWaveform(W[1], list(W[2]), times=list(W[3]))
+            return InterpolatedWaveform(pydur(W[1]), list(W[2]))
+        return InterpolatedWaveform(pydur(W[1]), list(W[2]), times=list(W[3]))
     raise ValueError("unknown waveform kind " + str(k))
 
 
@@ -121,25 +145,25 @@ def interp_times_param(w: InterpolatedWaveform):
 def wf_dump(w: Waveform):
     """mirror of Coq [wf_sv]"""
     if isinstance(w, ConstantWaveform):
-        return [0, int(w._duration), nz(w._value)]
+        return [0, idur(w._duration), nz(w._value)]
     if isinstance(w, RampWaveform):
-        return [1, int(w._duration), nz(w._start), nz(w._stop)]
+        return [1, idur(w._duration), nz(w._start), nz(w._stop)]
     if isinstance(w, CustomWaveform):
         return [2, fl(w._samples_arr.as_array(detach=True))]
     if isinstance(w, CompositeWaveform):
         return [3, [wf_dump(x) for x in w._waveforms]]
     if isinstance(w, BlackmanWaveform):
-        return [4, int(w._duration), nz(w._area), 0.0]
+        return [4, idur(w._duration), nz(w._area), 0.0]
     if isinstance(w, KaiserWaveform):
-        return [5, int(w._duration), nz(w._area), nz(w._beta)]
+        return [5, idur(w._duration), nz(w._area), nz(w._beta)]
     if isinstance(w, InterpolatedWaveform):
         t = interp_times_param(w)
-        return [6, int(w._duration), fl(w._values), [] if t is None else [fl(t)]]
+        return [6, idur(w._duration), fl(w._values), [] if t is None else [fl(t)]]
     raise TypeError("unknown waveform class " + type(w).__name__)
 
 
 def wf_full(w: Waveform):
-    return [wf_dump(w), int(w.duration), fl(arr(w))]
+    return [wf_dump(w), idur(w.duration), fl(arr(w))]
 
 
 # --------------------------------------------------------- oracle environment
@@ -252,6 +276,18 @@ class Oracle:
     def bad(self, sig, what, detail=None):
         self.v.append(Violation(sig, what, self.case, detail))
 
+    def asked_duration(self, w: Waveform, W, origin: str):
+        """duration == int(requested duration), for every int-castable form"""
+        if W[0] in ("custom", "comp"):
+            if W[0] == "comp" and isinstance(w, CompositeWaveform):
+                for x, X in zip(w._waveforms, W[1]):
+                    self.asked_duration(x, X, origin + "/part")
+            return
+        want = dur_int(W[1])
+        d = w.duration
+        if not (isinstance(d, (int, np.integer)) and not isinstance(d, bool)) or int(d) != want:
+            self.bad("duration:cast", f"{origin}: asked duration {W[1]!r} (= {want} ns), object reports {d!r}")
+
     # -- every waveform object that comes into existence goes through here
     def waveform(self, w: Waveform, origin: str):
         try:
@@ -342,6 +378,7 @@ def run_wf_case(case, env: Env, orc: Oracle):
         return [err_code(e)], None
     env.add_obj(w)
     finite = orc.waveform(w, "wf")
+    orc.asked_duration(w, case["wf"], "wf")
     if case["wf"][0] == "custom":
         if not np.array_equal(arr(w), np.array(case["wf"][1], dtype=float)):
             orc.bad("custom:values", "samples differ from the given list")
@@ -355,7 +392,7 @@ def run_wf_case(case, env: Env, orc: Oracle):
             if k == "samples":
                 r = [0, fl(s)]
             elif k == "dur":
-                r = [0, int(d)]
+                r = [0, idur(d)]
             elif k == "integral":
                 r = [0, nz(w.integral)]
             elif k == "index":
@@ -405,12 +442,12 @@ def run_wf_case(case, env: Env, orc: Oracle):
                         orc.bad("scale:samples:" + k, f"{k} by {op[1] if len(op) > 1 else -1}: samples are not the scaled samples (max dev {np.max(np.abs(s2 - exp))})")
                 r = [0, wf_full(w2)]
             elif k == "chdur":
-                w2 = w.change_duration(op[1])
+                w2 = w.change_duration(pydur(op[1]))
                 env.add_obj(w2)
                 orc.waveform(w2, "chdur")
                 if type(w2) is not type(w):
                     orc.bad("change-duration:class", f"{type(w).__name__} became {type(w2).__name__}")
-                elif w2.duration != op[1]:
+                elif w2.duration != dur_int(op[1]):
                     orc.bad("change-duration:duration", f"asked {op[1]}, got {w2.duration}")
                 else:
                     a, b = wf_dump(w), wf_dump(w2)
@@ -449,7 +486,7 @@ def run_wf_case(case, env: Env, orc: Oracle):
                 or (k == "slice" and c == 4 and op[3] not in (None, 1))
                 or (k == "div" and c == 7 and float(op[1]) == 0.0)
                 or (k == "chdur" and c == 5 and isinstance(w, (CustomWaveform, CompositeWaveform)))
-                or (k == "chdur" and c == 1 and (op[1] <= 0 or isinstance(w, InterpolatedWaveform)))
+                or (k == "chdur" and c == 1 and (dur_int(op[1]) <= 0 or isinstance(w, InterpolatedWaveform)))
                 or (k == "eq" and c == 1)
             )
             if k == "index" and c == 4 and -d <= op[1] < d:
@@ -505,6 +542,8 @@ def run_pulse_case(case, env: Env, orc: Oracle):
         return [err_code(e)], None
     orc.waveform(amp, "amp")
     orc.waveform(det, "det")
+    orc.asked_duration(amp, case["amp"], "amp")
+    orc.asked_duration(det, case["det"], "det")
     try:
         p = Pulse(amp, det, case["phase"], case["post"])
     except Exception as e:  # noqa: BLE001
@@ -527,6 +566,8 @@ def run_arb_case(case, env: Env, orc: Oracle):
         return [err_code(e)], None
     orc.waveform(amp, "amp")
     fin = orc.waveform(ph, "phase_wf")
+    orc.asked_duration(amp, case["amp"], "amp")
+    orc.asked_duration(ph, case["phase_wf"], "phase_wf")
     try:
         p = Pulse.ArbitraryPhase(amp, ph, case["post"])
     except Exception as e:  # noqa: BLE001
@@ -585,15 +626,37 @@ def check_from_max_val(w, cls, max_val, area, beta, orc: Oracle):
     d = w.duration
     if d >= 2 and not (cls is BlackmanWaveform and d - 1 == 2):
         pk1 = peak_of(cls, d - 1, area, beta)
-        if math.isfinite(pk1) and pk1 <= mv * (1 - 1e-9) and pk1 > pk * (1 + 1e-9):
+        # a duration whose peak EQUALS max_val does not exceed it: decided
+        # exactly, up to the few ulps by which the class's samples
+        # (area/sum*1e3*w) and from_max_val's own estimate (w*(1000*area/sum))
+        # may differ
+        fits = math.isfinite(pk1) and pk1 <= mv * (1 + 4e-15)
+        known = None
+        if fits:
+            # two narrow, understood defects of the unchanged tree (see
+            # notes/C16.md); anything else that fits is reported in general
+            a = abs(area)
+            if cls is BlackmanWaveform:
+                sc1 = abs(float(cls(d - 1, area)._scaling))
+                if mv < sc1 <= mv * (1 + 4e-15) and (d - 1) % 2 == 1:
+                    known = "from-max-val:peak-fits-but-scaling-1ulp-above:BlackmanWaveform"
+            else:
+                k1 = np.kaiser(d - 1, beta)
+                e1 = float(np.max(k1) * (1000 * a / np.sum(k1)))
+                guess = int(a * 1000.0 / (mv * float(np.sum(np.kaiser(100, beta))) / 100))
+                if e1 == mv and guess > d - 1 and guess >= 11:
+                    known = "from-max-val:exact-hit-skipped-when-descending:KaiserWaveform"
+        if known:
+            orc.bad(known, f"duration {d-1} peaks at {pk1!r} <= max_val {mv!r} but duration {d} ({pk!r}) was returned")
+        elif fits and pk1 > pk * (1 + 1e-9):
             orc.bad(
                 "from-max-val:not-closest:" + name,
-                f"duration {d-1} would peak at {pk1} <= max_val {mv}, closer than duration {d} ({pk})",
+                f"duration {d-1} would peak at {pk1!r} <= max_val {mv!r}, closer than duration {d} ({pk!r})",
             )
-        if math.isfinite(pk1) and pk1 <= mv * (1 - 1e-9) and d > 16 and not (cls is BlackmanWaveform and d % 2 == 1):
+        elif fits and d > 16 and not (cls is BlackmanWaveform and d % 2 == 1):
             orc.bad(
                 "from-max-val:not-minimal:" + name,
-                f"duration {d-1} does not exceed max_val {mv} (peak {pk1}); returned duration {d}",
+                f"duration {d-1} does not exceed max_val {mv!r} (peak {pk1!r}); returned duration {d}",
             )
 
 
@@ -694,22 +757,30 @@ def coq_fl(xs) -> str:
     return coq_list(coq_float(x) for x in xs)
 
 
+def coq_rawdur(x) -> str:
+    v = pydur(x)
+    if isinstance(v, (int, np.integer)) and not isinstance(v, bool):
+        return "(RI %s)" % coq_Z(int(v))
+    return "(RF %s)" % coq_float(float(v))
+
+
 def coq_wf(W) -> str:
+    """source expression ([wsrc]): durations as the user passes them"""
     k = W[0]
     if k == "const":
-        return "(WConst %s %s)" % (coq_Z(W[1]), coq_float(W[2]))
+        return "(SConst %s %s)" % (coq_rawdur(W[1]), coq_float(W[2]))
     if k == "ramp":
-        return "(WRamp %s %s %s)" % (coq_Z(W[1]), coq_float(W[2]), coq_float(W[3]))
+        return "(SRamp %s %s %s)" % (coq_rawdur(W[1]), coq_float(W[2]), coq_float(W[3]))
     if k == "custom":
-        return "(WCustom %s)" % coq_fl(W[1])
+        return "(SCustom %s)" % coq_fl(W[1])
     if k == "comp":
-        return "(WComp %s)" % coq_list(coq_wf(x) for x in W[1])
+        return "(SComp %s)" % coq_list(coq_wf(x) for x in W[1])
     if k == "blackman":
-        return "(WWin KBlackman %s %s zero)" % (coq_Z(W[1]), coq_float(W[2]))
+        return "(SWin KBlackman %s %s zero)" % (coq_rawdur(W[1]), coq_float(W[2]))
     if k == "kaiser":
-        return "(WWin KKaiser %s %s %s)" % (coq_Z(W[1]), coq_float(W[2]), coq_float(W[3]))
+        return "(SWin KKaiser %s %s %s)" % (coq_rawdur(W[1]), coq_float(W[2]), coq_float(W[3]))
     if k == "interp":
-        return "(WInterp %s %s %s)" % (coq_Z(W[1]), coq_fl(W[2]), coq_opt(W[3], coq_fl))
+        return "(SInterp %s %s %s)" % (coq_rawdur(W[1]), coq_fl(W[2]), coq_opt(W[3], coq_fl))
     raise ValueError(k)
 
 
@@ -732,7 +803,7 @@ def coq_op(op) -> str:
     if k == "div":
         return "(ODiv %s)" % coq_float(op[1])
     if k == "chdur":
-        return "(OChDur %s)" % coq_Z(op[1])
+        return "(OChDur %s)" % coq_rawdur(op[1])
     if k == "eq":
         return "(OEq %s)" % coq_wf(op[1])
     if k == "datapts":
